@@ -43,6 +43,13 @@ def run(ctx):
         cases.append({"kind": "random", "seed": seed, "fails": []})
     for i in range(2 if quick else 6):
         cases.append({"kind": "gated-delete", "seed": i, "fails": []})
+    # concurrent bursts (each goroutine on its own object): overlapping / coalesced / reordered persists
+    for i in range(40 if quick else 300):
+        seed += 1
+        cases.append({"kind": "idleburst", "seed": seed, "fails": []})
+    for i in range(60 if quick else 400):
+        seed += 1
+        cases.append({"kind": "ackburst", "seed": seed, "fails": []})
     cases.append({"kind": "second", "seed": seed + 1, "fails": []})
     cf = os.path.join(ctx.scratch, "meta-cases.json")
     json.dump(cases, open(cf, "w"))
